@@ -190,6 +190,11 @@ fn judge_mux(c: &MuxCase, dir: &Path, k: usize, order: (u64, u64), t: &mut Tally
     let apath = dir.join(format!("a{k}.hex"));
     let opath = dir.join(format!("o{k}.mp4"));
     std::fs::write(&vpath, hex_text(&vdata, k)).unwrap();
+    // what is at the output path beforehand: nothing, a shorter file, a longer file
+    let pre: usize = [0usize, 10, 70_000][k % 3];
+    if pre > 0 {
+        std::fs::write(&opath, vec![0xAAu8; pre]).unwrap();
+    }
     let mut args: Vec<String> = vec![];
     if c.json {
         args.push("--json".into());
@@ -216,7 +221,7 @@ fn judge_mux(c: &MuxCase, dir: &Path, k: usize, order: (u64, u64), t: &mut Tally
         args.extend(["--language".to_string(), l.to_string()]);
     }
     t.evaluations += 1;
-    let case = || json!({"engine": "E6-mux", "args": args, "video_hex": hex(&vdata), "audio_hex": adata.as_ref().map(|a| hex(a))});
+    let case = || json!({"engine": "E6-mux", "args": args, "video_hex": hex(&vdata), "audio_hex": adata.as_ref().map(|a| hex(a)), "preexisting_output_bytes": pre});
     let o = match spawn(&args, Duration::from_secs(10)) {
         Ok(o) => o,
         Err(e) => {
@@ -570,7 +575,7 @@ pub fn check(ctx: &Ctx) -> i32 {
         &tally,
         Meta {
             level: "exploration",
-            rule: format!("the built muxide binary is spawned for: {n_mux} valid mux option combinations ({}) - exit 0, output file byte-equal to an in-process library run with the same settings and the single frame at t=0, reported frame counts; ~90 single invalid deviations from a valid command (missing/unknown/out-of-range options, eight kinds of bad input file for video and audio, --fragmented, wrong codec for the data) - exit != 0 and no completion message; validate: 10 x 10 input kinds (absent, missing, empty, whitespace, valid, odd, bad char, non-ASCII, binary) x {{--json, -o file}} - verdict valid iff every given input exists and is non-empty even-length hex; info: {n_info} files of <= {} boxes with size fields over {{0, 1, 7, 8, 9, exact, exact+1, 2^32-1}} x ASCII / non-UTF-8 types, files shorter than 8 bytes (termination within 5 s), and every well-formed file produced by the mux runs (box list equals the reader's top-level walk). Distinct by output file / verdict.", if ctx.thorough { "full product of 10 codec spellings x 3 dimensions x 3 frame rates x 28 audio options x 5 titles (incl. surrounding whitespace and empty) x 2 languages x 4 output modes" } else { "every (codec spelling, audio option) pair with the other factors cycling, plus the full product of dimensions x fps x title x language x output mode" }, if ctx.thorough { 3 } else { 2 }),
+            rule: format!("the built muxide binary is spawned for: {n_mux} valid mux option combinations ({}) - exit 0, output file (absent, 10 bytes or 70000 bytes of other content beforehand, cycling) byte-equal to an in-process library run with the same settings and the single frame at t=0, reported frame counts; ~90 single invalid deviations from a valid command (missing/unknown/out-of-range options, eight kinds of bad input file for video and audio, --fragmented, wrong codec for the data) - exit != 0 and no completion message; validate: 10 x 10 input kinds (absent, missing, empty, whitespace, valid, odd, bad char, non-ASCII, binary) x {{--json, -o file}} - verdict valid iff every given input exists and is non-empty even-length hex; info: {n_info} files of <= {} boxes with size fields over {{0, 1, 7, 8, 9, exact, exact+1, 2^32-1}} x ASCII / non-UTF-8 types, files shorter than 8 bytes (termination within 5 s), and every well-formed file produced by the mux runs (box list equals the reader's top-level walk). Distinct by output file / verdict.", if ctx.thorough { "full product of 10 codec spellings x 3 dimensions x 3 frame rates x 28 audio options x 5 titles (incl. surrounding whitespace and empty) x 2 languages x 4 output modes" } else { "every (codec spelling, audio option) pair with the other factors cycling, plus the full product of dimensions x fps x title x language x output mode" }, if ctx.thorough { 3 } else { 2 }),
             bound: "option domains as listed".into(),
             exhaustive: true,
             assumptions: vec!["validate with no inputs, mux --dry-run and --creation-time (documented as unimplemented) are outside the statement and not judged".into(), "the binary under test is built from /repo's working tree into /verif/target/cli by ./check".into()],
